@@ -464,6 +464,31 @@ def anchors():
     k4 = dict(base, invalid="product",
               body=[["raw", "a(1) = a(1) * b(1)"]])
     out.append((k4, ["anchor"]))
+    # minimal kernels, one per hazard family (see c19_gen.hazards): they keep
+    # every recorded mechanism exercised on every run
+    one = dict(base, arrays=base["arrays"][:1], scalars=base["scalars"][1:])
+    dbl = [_t(1, two, ai)]
+    out.append((dict(one, body=[["do", "i", ["lit", 1], ["sub", ["n"], 1], 2,
+                                 [["assign", ai, dbl]]]]),
+                ["anchor", "hazard_family_L"]))
+    out.append((dict(one, body=[["do", "i", ["sub", ["n"], 1], ["lit", 1], -3,
+                                 [["assign", ai, dbl]]]]),
+                ["anchor", "hazard_family_L"]))
+    st = dict(base, arrays=[], scalars=[
+        {"name": "s", "active": True, "local": False},
+        {"name": "t", "active": True, "local": False},
+        {"name": "p", "active": False, "local": False}])
+    out.append((dict(st, body=[["assign", ["s", "t"], [
+        _t(1, None, ["s", "s"]), _t(-1, None, ["s", "t"])]]]),
+        ["anchor", "hazard_family_S"]))
+    b0 = dict(one, arrays=[{"name": "b", "lb": 0, "active": True}])
+    b1 = ["v", "b", "i", 1]
+    out.append((dict(b0, body=[["do", "i", ["lit", -1], ["sub", ["n"], 2], 2,
+                                [["assign", b1, [_t(1, two, b1)]]]]]),
+                ["anchor", "hazard_family_N"]))
+    out.append((dict(one, body=[["do", "i", ["lit", 1], ["n"], None, [
+        ["assign", ai, [_t(1, two, ["c", "a", 2])]]]]]),
+        ["anchor", "hazard_family_A"]))
     return out
 
 
@@ -524,7 +549,7 @@ def main(ctx):
                 "PSyAD accepted the kernel and at least one matrix comparison "
                 "ran (the TL kernel itself ran within bounds); distinct by "
                 "kernel text")
-    nb = 16 if ctx.quick else 160
+    nb = 16 if ctx.quick else 125
     cnt = 9 if ctx.quick else 16
     jobs = [{"seed": 0, "anchors": True, "count": 0}]
     for b in range(nb):
